@@ -5,7 +5,7 @@ From PM Require Import Semiring Poly Poly_sem Rel Calculus Rel_sem Sem_stmts.
 From PM Require Rel_hom Rel_ops_closed Rel_fix_closed Rel_persist.
 From PM Require Import Analysis An_stmts.
 From PM Require An_extra.
-From PM Require Rel Rel_sem Rel_term.
+From PM Require Rel Rel_sem Rel_term Rel_empty.
 Import ListNotations.
 
 (* variable-list unification: both operands keep their meaning (identity on missing variables),
@@ -118,6 +118,22 @@ Theorem C10_loop_closures_terminate : forall body x, Rel_sem.wf_rel body -> Rel_
   (exists fuel f, Rel.rel_fixpoint fuel (Rel.rel_comp (Rel.rel_zero [x]) body) = Some f).
 Proof. exact Rel_term.rel_fixpoint_total_for_analysis. Qed.
 
+(* The empty relation Relation() (a statement list with no effect) stands for the IDENTITY, in sums as in compositions: the sum of a
+   relation with the empty relation is its sum with the identity over the same variables -- not the relation itself (the example
+   shows they differ): a branch that does nothing contributes the identity to the sum of the two branches of a conditional. *)
+Theorem C10_sum_with_empty_is_sum_with_identity : forall r, rel_is_empty r = false -> forallb nonempty_str (rvars r) = true ->
+  rel_sum r rel_empty = rel_sum r (rel_identity (rvars r)) /\ rel_sum rel_empty r = rel_sum (rel_identity (rvars r)) r.
+Proof. intros r H1 H2. split; [exact (Rel_empty.sum_empty_right_is_sum_identity r H1 H2) | exact (Rel_empty.sum_empty_left_is_sum_identity r H1 H2)]. Qed.
+
+Theorem C10_composition_with_empty_is_composition_with_identity : forall r, rel_is_empty r = false -> forallb nonempty_str (rvars r) = true ->
+  rel_comp r rel_empty = rel_comp r (rel_identity (rvars r)).
+Proof. exact Rel_empty.comp_empty_right_is_comp_identity. Qed.
+
+Theorem C10_empty_is_not_neutral_for_sum :
+  let r := mk_rel ["x"; "y"]%string [[zero_poly; zero_poly]; [unit_poly; unit_poly]] in
+  rel_is_empty r = false /\ rmat (rel_sum r rel_empty) <> rmat r.
+Proof. exact Rel_empty.sum_empty_is_not_neutral. Qed.
+
 Print Assumptions C10_homogenisation.
 Print Assumptions C10_infinity_persists_in_sum.
 Print Assumptions C10_infinity_persists_in_composition_refuted.
@@ -130,3 +146,6 @@ Print Assumptions C10_split_derivation.
 Print Assumptions C10_split.
 Print Assumptions C10_fixpoint_terminates.
 Print Assumptions C10_loop_closures_terminate.
+Print Assumptions C10_sum_with_empty_is_sum_with_identity.
+Print Assumptions C10_composition_with_empty_is_composition_with_identity.
+Print Assumptions C10_empty_is_not_neutral_for_sum.
